@@ -47,7 +47,7 @@ def node_leaves_nomarks(node):
     return leaves_nomarks(out)
 
 
-def check_inv(tr, start_doc):
+def check_inv(tr, start_doc, first=0):
     """C04 alignment invariant of a Transform: lists aligned, docs chain through the steps, maps are the
     steps' maps.  None if fine."""
     n = len(tr.steps)
@@ -58,11 +58,11 @@ def check_inv(tr, start_doc):
         return "docs[0] is not the starting document"
     if n == 0 and tr.doc is not start_doc:
         return "document changed without a step"
-    for i in range(n):
+    for i in range(first, n):
         res = tr.steps[i].apply(docs[i])
         if res.failed is not None or res.doc is None:
             return "recorded step %d does not apply to recorded doc %d" % (i, i)
-        if not res.doc.eq(docs[i + 1]) or doc_tokens(res.doc) != doc_tokens(docs[i + 1]):
+        if not res.doc.eq(docs[i + 1]) or res.doc.attrs != docs[i + 1].attrs:
             return "replaying step %d does not give recorded doc %d" % (i, i + 1)
         if tr.mapping.maps[i].ranges != tr.steps[i].get_map().ranges or tr.mapping.maps[i].inverted:
             return "map %d is not the map of step %d" % (i, i)
@@ -79,13 +79,20 @@ def check_undo(tr, first):
         if res.failed is not None or res.doc is None:
             return "inverted step %d does not apply: %s" % (i, res.failed)
         cur = res.doc
-        if not cur.eq(docs[i]) or doc_tokens(cur) != doc_tokens(docs[i]) or cur.attrs != docs[i].attrs:
+        if not cur.eq(docs[i]) or cur.attrs != docs[i].attrs or (i == first and doc_tokens(cur) != doc_tokens(docs[i])):
             return "undoing step %d does not restore doc %d" % (i, i)
         # an inverted step's map is the inverse of the original's
         m1 = inv.get_map()
         m2 = tr.steps[i].get_map().invert()
         size = docs[i + 1].content.size
-        for pos in range(size + 1):
+        # positions where the two maps could differ: around every range boundary (new coordinates)
+        cand = {0, size}
+        r = m1.ranges
+        for k in range(0, len(r), 3):
+            for q in (r[k] - 1, r[k], r[k] + 1, r[k] + r[k + 1] - 1, r[k] + r[k + 1], r[k] + r[k + 1] + 1):
+                if 0 <= q <= size:
+                    cand.add(q)
+        for pos in sorted(cand):
             for assoc in (-1, 1):
                 if m1.map(pos, assoc) != m2.map(pos, assoc):
                     return "inverted step %d maps %d differently from the inverted map" % (i, pos)
